@@ -312,4 +312,243 @@ Proof.
     subst. unfold Zlen in *. lia.
 Qed.
 
+(* ------------------------------------------------------------------ comparing outcomes *)
+Definition uequiv (r1 r2 : ufull) : Prop :=
+  match r1, r2 with
+  | UF e1 s1 c1 u1, UF e2 s2 c2 u2 => norm e1 = norm e2 /\ s1 = s2 /\ c1 = c2 /\ u1 = u2
+  | UFErr a _, UFErr b _ => a = b
+  | UFExn a, UFExn b => a = b
+  | _, _ => False
+  end.
+
+Definition ubind (r : ufull) (k : hstream -> conn -> ufull) : ufull :=
+  match r with
+  | UF e st c u => match k st c with UF e2 st2 c2 u2 => UF (e ++ e2) st2 c2 (u ++ u2) | x => x end
+  | x => x
+  end.
+
+Lemma uequiv_refl : forall r, uequiv r r.
+Proof. destruct r; cbn; auto. Qed.
+
+Lemma ubind_nil : forall st c k, uequiv (ubind (UF [] st c []) k) (k st c).
+Proof. intros. cbn. destruct (k st c); cbn; auto. Qed.
+
+(* ------------------------------------------------------------------ facts about request/push parsing used for push streams *)
+Lemma handle_keeps : forall cl t d st e,
+  match handle_rp_frame fx O cl t (Some d) st e with
+  | HVal _ st2 | HBlocked st2 => s_stype st2 = s_stype st /\ s_push st2 = s_push st
+  | _ => True
+  end.
+Proof.
+  intros cl t d st e. destruct st as [i bf cu se bl en hs cn ex pu sy bt bp].
+  unfold handle_rp_frame, endmark, check_cl, set_ended, set_clen, set_expect, set_hstate, set_bpush.
+  cbn [s_id s_buf s_cur s_session s_blocked s_ended s_hstate s_clen s_expect s_push s_stype s_btype s_bpush].
+  brk; cbn; auto.
+Qed.
+
+Lemma rq_loop_keeps : forall f cl fin st b evs e st',
+  rq_loop f fx O cl fin st b evs = RVal e st' -> s_stype st' = s_stype st /\ s_push st' = s_push st.
+Proof.
+  induction f; intros cl fin st b evs e st' H.
+  { cbn in H. inversion H; subst. destruct st; auto. }
+  rewrite (rq_loop_S fx O cl) in H.
+  destruct (is_nil b); [inversion H; subst; destruct st; auto|].
+  destruct (hdr_of st b) as [[[t n] b2]|]; [|inversion H; subst; destruct st; auto].
+  destruct (is_none (s_cur st) && (t =? 65)); [inversion H; subst; destruct st; auto|].
+  unfold body in H.
+  destruct (negb (t =? 0) && (Z.min n (Zlen b2) <? n)); [inversion H; subst; destruct st; auto|].
+  match type of H with (match handle_rp_frame ?a ?b ?c ?d ?e ?g ?h with _ => _ end) = _ =>
+    pose proof (handle_keeps c d match e with Some x => x | None => [] end g h) as Hk;
+    destruct (handle_rp_frame a b c d e g h) end; try discriminate.
+  - apply IHf in H. destruct H as [H1 H2], Hk as [K1 K2]. rewrite H1, H2, K1, K2. destruct st; auto.
+  - inversion H; subst. destruct Hk as [K1 K2]. destruct st0; cbn in *. rewrite K1, K2. destruct st; auto.
+Qed.
+
+Lemma rq_recv_keeps : forall cl st d fin e st',
+  rq_recv fx O cl st d fin = RVal e st' -> s_stype st' = s_stype st /\ s_push st' = s_push st.
+Proof.
+  intros cl st d fin e st' H. unfold rq_recv in H.
+  match type of H with (if ?c then _ else _) = _ => destruct c end; [inversion H; subst; destruct st; auto|].
+  match type of H with (match ?c with _ => _ end) = _ => destruct c end; [inversion H; subst; destruct st; auto|].
+  match type of H with (match ?c with _ => _ end) = _ => destruct c end; [inversion H; subst; destruct st; auto|].
+  match type of H with (if ?c then _ else _) = _ => destruct c end.
+  { match type of H with (if ?c then _ else _) = _ => destruct c end; [|discriminate]. inversion H; subst; destruct st; auto. }
+  match type of H with (match ?c with _ => _ end) = _ => destruct c eqn:Hl end; try discriminate.
+  apply rq_loop_keeps in Hl.
+  match type of H with (if ?c then _ else _) = _ => destruct c end; [discriminate|]. inversion H; subst.
+  destruct Hl as [H1 H2]. rewrite H1, H2. destruct st; auto.
+Qed.
+
+(* a delivery only sees the buffer with the new bytes appended *)
+Lemma rq_recv_norm : forall cl s d fin, fin = true \/ s_ended s = false ->
+  rq_recv fx O cl s d fin = rq_recv fx O cl (set_ended (set_buf s []) false) (s_buf s ++ d) fin.
+Proof.
+  intros cl s d fin H. unfold rq_recv. destruct s as [i bf cu se bl en hs cn ex pu sy bt bp].
+  cbn [s_id s_buf s_cur s_session s_blocked s_ended s_hstate s_clen s_expect s_push s_stype s_btype s_bpush
+       set_buf set_ended app orb].
+  replace (en || fin) with fin; [reflexivity|]. destruct H as [->|H]; [rewrite orb_true_r; reflexivity|].
+  cbn in H. subst. reflexivity.
+Qed.
+
+(* ------------------------------------------------------------------ a later delivery on a stream whose type is known *)
+Lemma uni_spec_typed : forall st1 t c1 b fin, s_stype st1 = Some t -> s_ended st1 = false ->
+  uni_spec st1 c1 b fin =
+  let st' := set_ended (set_buf st1 (s_buf st1 ++ b)) fin in
+  if negb (stream_loops (Some t) || negb (is_nil (s_buf st1 ++ b))) then UF [] st' c1 []
+  else tspec fin st' t c1 (s_buf st1 ++ b).
+Proof.
+  intros st1 t c1 b fin Ht He. unfold uni_spec, ustart, typed_of. cbv zeta. rewrite Ht, He. cbn [orb].
+  replace (s_stype (set_ended (set_buf st1 (s_buf st1 ++ b)) fin)) with (Some t) by (destruct st1; cbn in *; congruence).
+  reflexivity.
+Qed.
+
+(* control stream, no FIN *)
+Lemma ctrl_two : forall stb zw za c x b, s_ended stb = false ->
+  uequiv (tspec false (set_ended (set_buf stb zw) false) 0 c (x ++ b))
+         (ubind (tspec false (set_buf stb za) 0 c x) (fun st1 c1 => uni_spec st1 c1 b false)).
+Proof.
+  intros stb zw za c x b He. unfold tspec. cbn [Z.eqb].
+  set (F := S (length (x ++ b))).
+  assert (HF : Zlen (x ++ b) < Z.of_nat F) by (unfold F, Zlen; lia).
+  rewrite (ctrl_fuel (S (length x)) F c x) by (rewrite Zlen_app in HF; pose proof (Zlen_nonneg b); unfold Zlen in *; lia).
+  rewrite (ctrl_split F c x b HF).
+  destruct (ctrl_loop F c x) as [c1 r| |] eqn:E; [|cbn; reflexivity..].
+  pose proof (ctrl_rest_len _ _ _ _ _ E) as Hr.
+  cbn [of_cres ubind].
+  set (st1 := set_buf (set_stype (set_buf stb za) (Some 0)) r).
+  rewrite (uni_spec_typed st1 0) by (subst st1; destruct stb; cbn in *; congruence).
+  cbv zeta. cbn [stream_loops Z.eqb orb negb].
+  replace (s_buf st1) with r by (subst st1; destruct stb; reflexivity).
+  unfold tspec. cbn [Z.eqb].
+  rewrite (ctrl_fuel (S (length (r ++ b))) F c1 (r ++ b)) by (unfold F, Zlen in *; rewrite ?app_length in *; lia).
+  destruct (ctrl_loop F c1 (r ++ b)); cbn; auto.
+Qed.
+
+(* unknown stream types: everything is discarded *)
+Lemma other_two : forall stb zw za t c x b fin, s_ended stb = false ->
+  (t =? 0) = false -> (t =? 1) = false -> (t =? 84) = false -> (t =? 3) = false -> (t =? 2) = false ->
+  uequiv (tspec fin (set_ended (set_buf stb zw) fin) t c (x ++ b))
+         (ubind (tspec false (set_buf stb za) t c x) (fun st1 c1 => uni_spec st1 c1 b fin)).
+Proof.
+  intros stb zw za t c x b fin He E0 E1 E84 E3 E2. unfold tspec. rewrite E0, E1, E84, E3, E2. cbn [ubind].
+  set (st1 := set_buf (set_stype (set_buf stb za) (Some t)) []).
+  rewrite (uni_spec_typed st1 t) by (subst st1; destruct stb; cbn in *; congruence).
+  cbv zeta. cbn [stream_loops]. rewrite E1, E0, E84. cbn [orb].
+  replace (s_buf st1) with (@nil Z) by (subst st1; destruct stb; reflexivity). cbn [app].
+  destruct (is_nil b) eqn:En; cbn [negb].
+  - apply is_nil_true in En. subst b. cbn. repeat split; auto; subst st1; destruct stb; reflexivity.
+  - unfold tspec. rewrite E0, E1, E84, E3, E2. cbn. repeat split; auto; subst st1; destruct stb; reflexivity.
+Qed.
+
+(* QPACK decoder stream: the bytes go to Encoder.feed_decoder; feeding x ++ y must be feeding x, then y *)
+Lemma qdec_two : forall stb zw za c x b fin, s_ended stb = false ->
+  (forall x y, o_ds O (x ++ y) = o_ds O x && o_ds O y) ->
+  uequiv (tspec fin (set_ended (set_buf stb zw) fin) 3 c (x ++ b))
+         (ubind (tspec false (set_buf stb za) 3 c x) (fun st1 c1 => uni_spec st1 c1 b fin)).
+Proof.
+  intros stb zw za c x b fin He Hds. unfold tspec. cbn [Z.eqb Pos.eqb].
+  set (st1 := set_buf (set_stype (set_buf stb za) (Some 3)) []).
+  assert (U : forall c1, uni_spec st1 c1 b fin =
+              if is_nil b then UF [] (set_ended (set_buf st1 b) fin) c1 []
+              else tspec fin (set_ended (set_buf st1 b) fin) 3 c1 b).
+  { intros c1. rewrite (uni_spec_typed st1 3) by (subst st1; destruct stb; cbn in *; congruence).
+    cbv zeta. cbn [stream_loops Z.eqb Pos.eqb orb].
+    replace (s_buf st1) with (@nil Z) by (subst st1; destruct stb; reflexivity). cbn [app].
+    destruct (is_nil b); reflexivity. }
+  destruct (is_nil b) eqn:En.
+  - apply is_nil_true in En. subst b. rewrite app_nil_r.
+    destruct (o_ds O x); [|cbn; reflexivity]. cbn [ubind]. rewrite U. cbn.
+    repeat split; auto; subst st1; destruct stb; cbn in *; subst; reflexivity.
+  - rewrite Hds. destruct (o_ds O x); cbn [andb]; [|cbn; reflexivity]. cbn [ubind]. rewrite U.
+    unfold tspec. cbn [Z.eqb Pos.eqb]. destruct (o_ds O b); cbn; auto; repeat split; auto; subst st1; destruct stb; cbn in *; subst; reflexivity.
+Qed.
+
+(* QPACK encoder stream *)
+Definition enc_seq (O : oracle) : Prop :=
+  forall x y, o_enc O (x ++ y) =
+    match o_enc O x with
+    | EEncErr => EEncErr
+    | EUnblocked l1 => match o_enc O y with EEncErr => EEncErr | EUnblocked l2 => EUnblocked (l1 ++ l2) end
+    end.
+
+Lemma qenc_two : forall stb zw za c x b fin, s_ended stb = false -> enc_seq O ->
+  uequiv (tspec fin (set_ended (set_buf stb zw) fin) 2 c (x ++ b))
+         (ubind (tspec false (set_buf stb za) 2 c x) (fun st1 c1 => uni_spec st1 c1 b fin)).
+Proof.
+  intros stb zw za c x b fin He Henc. unfold tspec. cbn [Z.eqb Pos.eqb].
+  set (st1 := set_buf (set_stype (set_buf stb za) (Some 2)) []).
+  assert (U : forall c1, uni_spec st1 c1 b fin =
+              if is_nil b then UF [] (set_ended (set_buf st1 b) fin) c1 []
+              else tspec fin (set_ended (set_buf st1 b) fin) 2 c1 b).
+  { intros c1. rewrite (uni_spec_typed st1 2) by (subst st1; destruct stb; cbn in *; congruence).
+    cbv zeta. cbn [stream_loops Z.eqb Pos.eqb orb].
+    replace (s_buf st1) with (@nil Z) by (subst st1; destruct stb; reflexivity). cbn [app].
+    destruct (is_nil b); reflexivity. }
+  destruct (is_nil b) eqn:En.
+  - apply is_nil_true in En. subst b. rewrite app_nil_r.
+    destruct (o_enc O x) as [l1|]; [|cbn; reflexivity]. cbn [ubind]. rewrite U. cbn. rewrite app_nil_r.
+    repeat split; auto; subst st1; destruct stb; cbn in *; subst; reflexivity.
+  - rewrite Henc. destruct (o_enc O x) as [l1|]; [|cbn; reflexivity]. cbn [ubind]. rewrite U.
+    unfold tspec. cbn [Z.eqb Pos.eqb]. destruct (o_enc O b) as [l2|]; cbn; auto; repeat split; auto; subst st1; destruct stb; cbn in *; subst; reflexivity.
+Qed.
+
+(* WebTransport unidirectional stream *)
+Lemma norm_wt_split : forall i p x b fin,
+  norm (if negb (is_nil (x ++ b)) || fin then [EWT i p (x ++ b) fin] else []) =
+  norm ((if negb (is_nil x) || false then [EWT i p x false] else []) ++
+        (if negb (is_nil b) || fin then [EWT i p b fin] else [])).
+Proof. intros i p [|x0 x] [|b0 b] [|]; cbn; rewrite ?app_nil_r, ?map_app, <- ?app_assoc; reflexivity. Qed.
+
+Lemma wt_two : forall stb zw za c x b fin, s_ended stb = false ->
+  uequiv (tspec fin (set_ended (set_buf stb zw) fin) 84 c (x ++ b))
+         (ubind (tspec false (set_buf stb za) 84 c x) (fun st1 c1 => uni_spec st1 c1 b fin)).
+Proof.
+  intros stb zw za c x b fin He. unfold tspec. cbn [Z.eqb Pos.eqb]. unfold sess_parse.
+  replace (s_session (set_stype (set_ended (set_buf stb zw) fin) (Some 84))) with (s_session stb) by (destruct stb; reflexivity).
+  replace (s_session (set_stype (set_buf stb za) (Some 84))) with (s_session stb) by (destruct stb; reflexivity).
+  (* what a later delivery does once the session id is known *)
+  assert (U : forall st1 p c1, s_stype st1 = Some 84 -> s_ended st1 = false -> s_session st1 = Some p -> s_buf st1 = [] ->
+              uni_spec st1 c1 b fin =
+              UF (if negb (is_nil b) || fin then [EWT (s_id st1) p b fin] else []) (set_ended st1 fin) c1 []).
+  { intros st1 p c1 H1 H2 H3 H4. rewrite (uni_spec_typed st1 84) by assumption.
+    cbv zeta. cbn [stream_loops Z.eqb Pos.eqb orb negb]. rewrite H4. cbn [app].
+    unfold tspec. cbn [Z.eqb Pos.eqb]. unfold sess_parse.
+    replace (s_session (set_stype (set_ended (set_buf st1 b) fin) (Some 84))) with (Some p) by (destruct st1; cbn in *; congruence).
+    f_equal; destruct st1; cbn in *; subst; reflexivity. }
+  destruct (s_session stb) as [p|] eqn:Es.
+  - cbn [ubind]. erewrite U; [| destruct stb; reflexivity | destruct stb; cbn in *; congruence | destruct stb; cbn in *; eassumption | destruct stb; reflexivity].
+    cbn [uequiv]. repeat split; auto.
+    replace (s_session (set_stype (set_ended (set_buf stb zw) fin) (Some 84))) with (Some p) by (destruct stb; cbn in *; congruence).
+      replace (s_session (set_stype (set_buf stb za) (Some 84))) with (Some p) by (destruct stb; cbn in *; congruence).
+      replace (s_ended (set_stype (set_ended (set_buf stb zw) fin) (Some 84))) with fin by (destruct stb; reflexivity).
+      replace (s_ended (set_stype (set_buf stb za) (Some 84))) with false by (destruct stb; cbn in *; congruence).
+      replace (s_id (set_stype (set_ended (set_buf stb zw) fin) (Some 84))) with (s_id stb) by (destruct stb; reflexivity).
+      replace (s_id (set_stype (set_buf stb za) (Some 84))) with (s_id stb) by (destruct stb; reflexivity).
+      replace (s_id (set_buf (set_stype (set_buf stb za) (Some 84)) [])) with (s_id stb) by (destruct stb; reflexivity).
+      apply norm_wt_split.
+  - destruct (pull_uint_var x) as [[p r]|] eqn:P.
+    + rewrite (pull_app _ b _ _ P). cbn [ubind].
+      erewrite U; [| destruct stb; reflexivity | destruct stb; cbn in *; congruence | destruct stb; reflexivity | destruct stb; reflexivity].
+      cbn [uequiv]. repeat split; auto.
+      replace (s_session (set_session (set_stype (set_ended (set_buf stb zw) fin) (Some 84)) (Some p))) with (Some p) by (destruct stb; reflexivity).
+        replace (s_session (set_session (set_stype (set_buf stb za) (Some 84)) (Some p))) with (Some p) by (destruct stb; reflexivity).
+        replace (s_ended (set_session (set_stype (set_ended (set_buf stb zw) fin) (Some 84)) (Some p))) with fin by (destruct stb; reflexivity).
+        replace (s_ended (set_session (set_stype (set_buf stb za) (Some 84)) (Some p))) with false by (destruct stb; cbn in *; congruence).
+        replace (s_id (set_session (set_stype (set_ended (set_buf stb zw) fin) (Some 84)) (Some p))) with (s_id stb) by (destruct stb; reflexivity).
+        replace (s_id (set_session (set_stype (set_buf stb za) (Some 84)) (Some p))) with (s_id stb) by (destruct stb; reflexivity).
+        replace (s_id (set_buf (set_session (set_stype (set_buf stb za) (Some 84)) (Some p)) [])) with (s_id stb) by (destruct stb; reflexivity).
+        apply norm_wt_split.
+    + (* the session id is still incomplete: the bytes wait in the buffer *)
+      cbn [ubind].
+      set (st1 := set_buf (set_stype (set_buf stb za) (Some 84)) x).
+      rewrite (uni_spec_typed st1 84) by (subst st1; destruct stb; cbn in *; congruence).
+      cbv zeta. cbn [stream_loops Z.eqb Pos.eqb orb negb].
+      replace (s_buf st1) with x by (subst st1; destruct stb; reflexivity).
+      unfold tspec. cbn [Z.eqb Pos.eqb]. unfold sess_parse.
+      replace (s_session (set_stype (set_ended (set_buf st1 (x ++ b)) fin) (Some 84))) with (@None Z)
+        by (subst st1; destruct stb; cbn in *; congruence).
+      destruct (pull_uint_var (x ++ b)) as [[p r]|]; cbn; repeat split; auto;
+        subst st1; destruct stb; cbn in *; subst; reflexivity.
+Qed.
+
 End Uni.
